@@ -30,6 +30,9 @@ type Case struct {
 	B2 Box       `json:"b2,omitempty"`
 	P  []model.F `json:"p,omitempty"`
 	OL int       `json:"ol,omitempty"`
+	// Deep (geom mode): the geometry is also measured at the bottom of a tower of that
+	// many nested collections.
+	Deep int `json:"deep,omitempty"`
 }
 
 // Box describes a Bounds to build.
@@ -158,6 +161,7 @@ func genCase(t *rapid.T) Case {
 		} else {
 			c.Gs = []model.G{*genGeom(t, std, 3, gen.NoNaN)}
 		}
+		c.Deep = rapid.SampledFrom([]int{0, 0, 0, 0, 0, 0, 0, 0, 0, 0, 0, 0, 5, 16, 31, 32, 33, 34, 64, 65, 130, 257}).Draw(t, "deep")
 	case "extend":
 		n := rapid.IntRange(1, 6).Draw(t, "n")
 		for i := 0; i < n; i++ {
@@ -300,6 +304,24 @@ func prop(c Case) error {
 		r2.addGeom(g2)
 		if err := checkBounds(g.Kind+".Bounds() after its ordinates were rewritten in place", t.Bounds(), g.ReportedLayout(), r2); err != nil {
 			return err
+		}
+		// the same object at the bottom of a tower of nested collections: bounds cover every
+		// member, however deep
+		if c.Deep > 0 && g.ReportedLayout() != geom.NoLayout {
+			top := t
+			for i := 0; i < c.Deep; i++ {
+				gc := geom.NewGeometryCollection()
+				if err := gc.Push(top); err != nil {
+					return fmt.Errorf("nesting level %d: %v", i, err)
+				}
+				top = gc
+			}
+			if err := checkBounds(fmt.Sprintf("Bounds() of %d nested collections around the %s", c.Deep, g.Kind), top.Bounds(), g.ReportedLayout(), r2); err != nil {
+				return err
+			}
+			if err := checkBounds(fmt.Sprintf("NewBounds(XY).Extend(%d nested collections around the %s)", c.Deep, g.Kind), geom.NewBounds(geom.XY).Extend(top), join(geom.XY, g.ReportedLayout()), r2); err != nil {
+				return err
+			}
 		}
 		// a collection nested in the collection grows by a point of another layout (the
 		// outer collection may have declared its layout before): the bounds of the outer
